@@ -124,6 +124,43 @@ func successPointsE(p *Prog, call *ssa.Call) (pts []ssa.Instruction, edges []edg
 			case *ssa.Return:
 				checked = true
 				pts = append(pts, x)
+			case *ssa.Call:
+				// handed to a helper that does not come back when it is non-nil (`mt.failOn(err, "…")`): whatever follows
+				// the helper call runs only after success
+				if p == nil {
+					continue
+				}
+				h := x.Call.StaticCallee()
+				if h == nil || !p.InModule(h) || len(h.Blocks) == 0 {
+					continue
+				}
+				for ai, arg := range x.Call.Args {
+					if arg != v || ai >= len(h.Params) {
+						continue
+					}
+					prm := h.Params[ai]
+					// no path from the entry of h to a return that avoids every "prm == nil" edge (paths end at no-return
+					// calls such as Panicf)
+					tested := false
+					q := PathQuery{P: p, Fn: h, Target: isReturn, EdgeOK: func(b *ssa.BasicBlock, i int) bool {
+						iff, ok := b.Instrs[len(b.Instrs)-1].(*ssa.If)
+						if !ok {
+							return true
+						}
+						tv, nilSucc, ok := nilTestCond(iff.Cond)
+						if !ok || tv != ssa.Value(prm) {
+							return true
+						}
+						tested = true
+						return i != nilSucc
+					}}
+					if q.FindPath() == nil && tested {
+						checked = true
+						if k := instrIndex(x); k+1 < len(x.Block().Instrs) {
+							pts = append(pts, x.Block().Instrs[k+1])
+						}
+					}
+				}
 			}
 		}
 	}
@@ -190,6 +227,50 @@ func (m *Must) Points(f *ssa.Function) map[ssa.Instruction]bool {
 		}
 	}
 	return out
+}
+
+// SelfOnly: ins is an event point of f only because of the call ins itself (a call whose callees perform the event):
+// no other call of f makes it one. Used where a call must not vouch for what it does itself before the event.
+func (m *Must) SelfOnly(f *ssa.Function, ins ssa.Instruction) bool {
+	if !m.Points(f)[ins] {
+		return false
+	}
+	for _, b := range f.Blocks {
+		for _, i2 := range b.Instrs {
+			if i2 == ins {
+				continue
+			}
+			if m.Plain != nil && m.Plain(i2) && i2 == ins {
+				return false
+			}
+			call, ok := i2.(*ssa.Call)
+			if !ok {
+				continue
+			}
+			is := m.Base != nil && m.Base(call)
+			if !is {
+				cs := m.P.Callees(call)
+				if len(cs) > 0 {
+					is = true
+					for _, g := range cs {
+						if !m.FuncSuccess(g) {
+							is = false
+						}
+					}
+				}
+			}
+			if !is {
+				continue
+			}
+			pts, _, _ := successPointsE(m.P, call)
+			for _, pt := range pts {
+				if pt == ins {
+					return false
+				}
+			}
+		}
+	}
+	return true
 }
 
 // FuncSuccess: every path from the entry of f to a success return passes an event point.
